@@ -35,7 +35,7 @@ func (repl) Name() string     { return "repl" }
 func (repl) NewPlan() any     { return &RPlan{} }
 func (repl) Units(tier string) int {
 	if tier == "thorough" {
-		return 400000
+		return 2500000
 	}
 	return 22000
 }
